@@ -1,106 +1,13 @@
 /-
-  C18 helper lemmas, part 4: `_apply_patch` does not raise on well-typed (body, patch) pairs.
+  C18 helper lemmas, part 3: the repaired `_apply_patch` never raises below a mapping, and what it
+  returns has the abstract semantics of the patch (existence and meaning proved together, because
+  the meaning of the repair step depends on the invariant "no leaf above the current path").
 -/
-import Kopf.Lemmas.C18_Spec
+import Kopf.Lemmas.C18_Abs
 namespace Kopf.C18
 open Kopf Kopf.J
 set_option linter.unusedSimpArgs false
 
-mutual
-  /-- extensional well-typedness: no leaf of the body sits where the patch has a mapping -/
-  def okx (M : LeafMap) (P : List String) : J → Prop
-    | .obj pk => M P = none ∧ okxKvs M P pk
-    | _ => True
-  def okxKvs (M : LeafMap) (P : List String) : List (String × J) → Prop
-    | [] => True
-    | (k, v) :: rest => okx M (P ++ [k]) v ∧ okxKvs M P rest
-end
-
-mutual
-  theorem okx_congr : ∀ (v : J) (M M' : LeafMap) (P : List String),
-      (∀ q, pre P q = true → M q = M' q) → okx M P v → okx M' P v
-    | .obj pk, M, M', P, h, ho => by
-        rw [okx] at ho ⊢
-        refine ⟨by rw [← h P (pre_refl P)]; exact ho.1, okxKvs_congr pk M M' P ?_ ho.2⟩
-        intro kv _ q hq
-        exact h q (pre_append_left P [kv.1] q hq)
-    | .null, _, _, _, _, _ => by simp [okx]
-    | .bool _, _, _, _, _, _ => by simp [okx]
-    | .num _, _, _, _, _, _ => by simp [okx]
-    | .str _, _, _, _, _, _ => by simp [okx]
-    | .arr _, _, _, _, _, _ => by simp [okx]
-  /-- the maps only need to agree below the paths `P ++ [k]` of the keys of `pk` -/
-  theorem okxKvs_congr : ∀ (pk : List (String × J)) (M M' : LeafMap) (P : List String),
-      (∀ kv ∈ pk, ∀ q, pre (P ++ [kv.1]) q = true → M q = M' q) → okxKvs M P pk → okxKvs M' P pk
-    | [], _, _, _, _, _ => by simp [okxKvs]
-    | (k, v) :: rest, M, M', P, h, ho => by
-        rw [okxKvs] at ho ⊢
-        exact ⟨okx_congr v M M' (P ++ [k]) (h (k, v) (by simp)) ho.1,
-          okxKvs_congr rest M M' P (fun kv hkv => h kv (by simp [hkv])) ho.2⟩
-end
-
-mutual
-  theorem okx_shift : ∀ (v : J) (k : String) (M : LeafMap) (P : List String),
-      okx (shiftM k M) P v → okx M (k :: P) v
-    | .obj pk, k, M, P, ho => by
-        rw [okx] at ho ⊢
-        exact ⟨ho.1, okxKvs_shift pk k M P ho.2⟩
-    | .null, _, _, _, _ => by simp [okx]
-    | .bool _, _, _, _, _ => by simp [okx]
-    | .num _, _, _, _, _ => by simp [okx]
-    | .str _, _, _, _, _ => by simp [okx]
-    | .arr _, _, _, _, _ => by simp [okx]
-  theorem okxKvs_shift : ∀ (pk : List (String × J)) (k : String) (M : LeafMap) (P : List String),
-      okxKvs (shiftM k M) P pk → okxKvs M (k :: P) pk
-    | [], _, _, _, _ => by simp [okxKvs]
-    | (k', v) :: rest, k, M, P, ho => by
-        rw [okxKvs] at ho ⊢
-        exact ⟨by rw [List.cons_append]; exact okx_shift v k M (P ++ [k']) ho.1, okxKvs_shift rest k M P ho.2⟩
-end
-
-mutual
-  theorem okx_noneMap : ∀ (v : J) (P : List String), okx (fun _ => none) P v
-    | .obj pk, P => by rw [okx]; exact ⟨rfl, okxKvs_noneMap pk P⟩
-    | .null, _ => by simp [okx]
-    | .bool _, _ => by simp [okx]
-    | .num _, _ => by simp [okx]
-    | .str _, _ => by simp [okx]
-    | .arr _, _ => by simp [okx]
-  theorem okxKvs_noneMap : ∀ (pk : List (String × J)) (P : List String), okxKvs (fun _ => none) P pk
-    | [], _ => by simp [okxKvs]
-    | (k, v) :: rest, P => by rw [okxKvs]; exact ⟨okx_noneMap v _, okxKvs_noneMap rest P⟩
-end
-
-/-! ### static well-typedness ⇒ extensional well-typedness -/
-mutual
-  theorem okx_of_wtAt : ∀ (v : J) (t : Option J), wtAt t v = true → okx (Lopt t) [] v
-    | .obj pk, t, h => by
-        cases t with
-        | none => exact okx_noneMap _ _
-        | some tj =>
-          cases tj with
-          | obj tk =>
-            rw [okx]
-            exact ⟨rfl, okxKvs_of_wtKvs pk tk (by simpa [wtAt] using h)⟩
-          | _ => simp [wtAt] at h
-    | .null, _, _ => by simp [okx]
-    | .bool _, _, _ => by simp [okx]
-    | .num _, _, _ => by simp [okx]
-    | .str _, _, _ => by simp [okx]
-    | .arr _, _, _ => by simp [okx]
-  theorem okxKvs_of_wtKvs : ∀ (pk : List (String × J)) (tk : List (String × J)),
-      wtKvs tk pk = true → okxKvs (leafAt (.obj tk)) [] pk
-    | [], _, _ => by simp [okxKvs]
-    | (k, v) :: rest, tk, h => by
-        simp only [wtKvs, Bool.and_eq_true] at h
-        rw [okxKvs]
-        refine ⟨?_, okxKvs_of_wtKvs rest tk h.2⟩
-        have := okx_of_wtAt v (lookup k tk) h.1
-        rw [← shift_leafAt_obj] at this
-        exact okx_shift v k _ [] this
-end
-
-/-! ### no exception on extensionally well-typed input -/
 theorem pre_snoc_cases (q P : List String) (k : String) (h : pre q (P ++ [k]) = true) :
     q = P ++ [k] ∨ pre q P = true := by
   induction q generalizing P with
@@ -134,54 +41,67 @@ theorem noLeafAbove_snoc (M : LeafMap) (P : List String) (k : String)
     · rw [e]; exact hP
     · exact h q h1 e
 
+theorem clrA_self (M : LeafMap) (P : List String) : clrA M P P = none := by
+  simp only [clrA, pre_refl, Bool.and_true]
+  cases h : M P <;> simp [h]
+
+theorem noLeafAbove_clrA (M : LeafMap) (P : List String) (h : NoLeafAbove M P) :
+    NoLeafAbove (clrA M P) P := by
+  intro q hq hne
+  have : pre P q = false := by
+    cases hp : pre P q with
+    | false => rfl
+    | true => exact absurd (pre_antisymm q P hq hp) hne
+  rw [clrA_frame M P q this]
+  exact h q hq hne
+
 mutual
-  theorem applyInstr_total : ∀ (v : J) (b : J) (P : List String), (P ≠ [] ∨ v.isObj = true) →
-      NoLeafAbove (leafAt b) P → okx (leafAt b) P v → J.wf v = true → ∃ b', applyInstr b P v = .ok b'
-    | .null, b, P, hP, hA, _, _ => by
-        rw [applyInstr]; exact remove_ok P b (by simpa [isObj] using hP) hA
-    | .bool x, b, P, hP, hA, _, _ => by
-        rw [applyInstr]; exact ensure_ok _ P b (by simpa [isObj] using hP) hA
-    | .num x, b, P, hP, hA, _, _ => by
-        rw [applyInstr]; exact ensure_ok _ P b (by simpa [isObj] using hP) hA
-    | .str x, b, P, hP, hA, _, _ => by
-        rw [applyInstr]; exact ensure_ok _ P b (by simpa [isObj] using hP) hA
-    | .arr x, b, P, hP, hA, _, _ => by
-        rw [applyInstr]; exact ensure_ok _ P b (by simpa [isObj] using hP) hA
-    | .obj pk, b, P, _, hA, ho, hwf => by
-        rw [applyInstr]
-        rw [okx] at ho
-        exact applyKvs_total pk b P hA ho.1 ho.2 (by simpa [J.wf] using hwf)
-  theorem applyKvs_total : ∀ (pk : List (String × J)) (b : J) (P : List String),
-      NoLeafAbove (leafAt b) P → leafAt b P = none → okxKvs (leafAt b) P pk → wfKvs pk = true →
-      ∃ b', applyKvs b P pk = .ok b'
-    | [], b, _, _, _, _, _ => ⟨b, rfl⟩
-    | (k, v) :: rest, b, P, hA, hP, ho, hwf => by
-        simp only [wfKvs, Bool.and_eq_true, Bool.not_eq_eq_eq_not, Bool.not_true] at hwf
-        obtain ⟨⟨hk, hv⟩, hrest⟩ := hwf
-        rw [okxKvs] at ho
-        obtain ⟨b1, h1⟩ := applyInstr_total v b (P ++ [k]) (Or.inl (by simp))
-          (noLeafAbove_snoc _ P k hA hP) ho.1 hv
-        have hsem := applyInstr_sem v b b1 (P ++ [k]) h1
+  theorem applyInstr_ok_sem : ∀ (v : J) (b : J) (P : List String), P ≠ [] →
+      NoLeafAbove (leafAt b) P →
+      ∃ b', applyInstr b P v = .ok b' ∧ leafAt b' = absInstr (leafAt b) P v
+    | .null, b, P, hP, hA => by
+        obtain ⟨b', h⟩ := remove_ok P b hP hA
+        exact ⟨b', by rw [applyInstr]; exact h, by funext q; rw [absInstr]; exact remove_leaf P b b' h q⟩
+    | .bool x, b, P, hP, hA => by
+        obtain ⟨b', h⟩ := ensure_ok (.bool x) P b hP hA
+        exact ⟨b', by rw [applyInstr]; exact h, by funext q; rw [absInstr]; exact ensure_leaf _ rfl P b b' h q⟩
+    | .num x, b, P, hP, hA => by
+        obtain ⟨b', h⟩ := ensure_ok (.num x) P b hP hA
+        exact ⟨b', by rw [applyInstr]; exact h, by funext q; rw [absInstr]; exact ensure_leaf _ rfl P b b' h q⟩
+    | .str x, b, P, hP, hA => by
+        obtain ⟨b', h⟩ := ensure_ok (.str x) P b hP hA
+        exact ⟨b', by rw [applyInstr]; exact h, by funext q; rw [absInstr]; exact ensure_leaf _ rfl P b b' h q⟩
+    | .arr x, b, P, hP, hA => by
+        obtain ⟨b', h⟩ := ensure_ok (.arr x) P b hP hA
+        exact ⟨b', by rw [applyInstr]; exact h, by funext q; rw [absInstr]; exact ensure_leaf _ rfl P b b' h q⟩
+    | .obj pk, b, P, hP, hA => by
+        obtain ⟨b1, h1, hs1⟩ := clearNonMapping_sem b P (Or.inl hP) hA
+        obtain ⟨b', h2, hs2⟩ := applyKvs_ok_sem pk b1 P (by rw [hs1]; exact noLeafAbove_clrA _ P hA)
+          (by rw [hs1]; exact clrA_self _ P)
+        exact ⟨b', by rw [applyInstr, h1]; exact h2, by rw [absInstr, ← hs1]; exact hs2⟩
+  theorem applyKvs_ok_sem : ∀ (pk : List (String × J)) (b : J) (P : List String),
+      NoLeafAbove (leafAt b) P → leafAt b P = none →
+      ∃ b', applyKvs b P pk = .ok b' ∧ leafAt b' = absKvs (leafAt b) P pk
+    | [], b, _, _, _ => ⟨b, rfl, rfl⟩
+    | (k, v) :: rest, b, P, hA, hP => by
+        obtain ⟨b1, h1, hs1⟩ := applyInstr_ok_sem v b (P ++ [k]) (by simp) (noLeafAbove_snoc _ P k hA hP)
         have hframe : ∀ q, pre (P ++ [k]) q = false → leafAt b1 q = leafAt b q := by
-          intro q hq; rw [hsem]; exact absInstr_frame v _ _ q hq
+          intro q hq; rw [hs1]; exact absInstr_frame v _ _ q hq
         have hA1 : NoLeafAbove (leafAt b1) P := by
           intro q hq hne
           rw [hframe q (not_pre_snoc_of_pre P q k hq)]
           exact hA q hq hne
         have hP1 : leafAt b1 P = none := by
           rw [hframe P (not_pre_snoc_of_pre P P k (pre_refl P))]; exact hP
-        have ho1 : okxKvs (leafAt b1) P rest := by
-          refine okxKvs_congr rest (leafAt b) (leafAt b1) P ?_ ho.2
-          intro kv hkv q hq
-          symm
-          apply hframe
-          cases hp : pre (P ++ [k]) q with
-          | false => rfl
-          | true =>
-            have := pre_snoc_disjoint P q k kv.1 hp hq
-            exact absurd this.symm (not_mem_keys_of_any hk kv hkv)
-        obtain ⟨b2, h2⟩ := applyKvs_total rest b1 P hA1 hP1 ho1 hrest
-        exact ⟨b2, by simp only [applyKvs, h1]; exact h2⟩
+        obtain ⟨b2, h2, hs2⟩ := applyKvs_ok_sem rest b1 P hA1 hP1
+        exact ⟨b2, by simp only [applyKvs, h1]; exact h2, by rw [absKvs, ← hs1]; exact hs2⟩
 end
+
+/-- the root call: any mapping body, any patch -/
+theorem applyPatch_ok_sem (b : J) (hb : b.isObj = true) (p : List (String × J)) :
+    ∃ b', applyPatch b p = .ok b' ∧ leafAt b' = absKvs (leafAt b) [] p := by
+  obtain ⟨kvs, rfl⟩ : ∃ kvs, b = .obj kvs := by cases b <;> simp [isObj] at hb; exact ⟨_, rfl⟩
+  obtain ⟨b', h, hs⟩ := applyKvs_ok_sem p (.obj kvs) [] (fun q hq hne => by cases q <;> simp_all [pre]) rfl
+  exact ⟨b', by simp only [applyPatch, applyInstr, clearNonMapping, resolve?]; exact h, hs⟩
 
 end Kopf.C18
